@@ -3,6 +3,8 @@ package v1
 // Replay and bounded stand-in harness of /verif for package config/v1. Injected with `go test -overlay`; never written to /repo.
 
 import (
+	"crypto/x509/pkix"
+	"encoding/asn1"
 	"encoding/base64"
 	"encoding/json"
 	"fmt"
@@ -432,3 +434,108 @@ func TestVerifBoundedV1Names(t *testing.T) {
 	fmt.Printf("VERIF-BOUNDED: ok cases=%d\n", n)
 }
 
+
+// TestVerifBoundedManipulations: every subset of the six manipulation keys, with version 0, 1, 2 and 1234: Apply sets
+// exactly the named fields of the configuration to exactly the given values and leaves the others nil.
+func TestVerifBoundedManipulations(t *testing.T) {
+	n := 0
+	raw := "!binary:" + base64.StdEncoding.EncodeToString([]byte{0xde, 0xad, 0xbe, 0xef})
+	for mask := 0; mask < 64; mask++ {
+		for _, ver := range []int{0, 1, 2, 1234} {
+			n++
+			var m Manipulations
+			v := ver
+			if mask&1 != 0 {
+				m.Version = &v
+			}
+			if mask&2 != 0 {
+				m.OuterSigAlg = "1.2.3.4"
+			}
+			if mask&4 != 0 {
+				m.SigValue = raw
+			}
+			if mask&8 != 0 {
+				m.TbsSig = "1.2.840.1"
+			}
+			if mask&16 != 0 {
+				m.TbsPubKeyAlg = "2.5.4.3"
+			}
+			if mask&32 != 0 {
+				m.TbsPubKey = raw
+			}
+			var c config.CertificateContent
+			if err := m.Apply(&c); err != nil {
+				fmt.Printf("VERIF-BOUNDED: violation Apply(%+v) fails: %v\n", m, err)
+				return
+			}
+			cm := c.Manipulations
+			okAlg := func(p *pkix.AlgorithmIdentifier, set bool, oid string) bool {
+				if !set {
+					return p == nil
+				}
+				return p != nil && p.Algorithm.String() == oid && len(p.Parameters.FullBytes) == 0
+			}
+			okBits := func(p *asn1.BitString, set bool) bool {
+				if !set {
+					return p == nil
+				}
+				return p != nil && string(p.Bytes) == "\xde\xad\xbe\xef" && p.BitLength == 32
+			}
+			if (mask&1 != 0) != (cm.Version != nil) || (cm.Version != nil && *cm.Version != ver) ||
+				!okAlg(cm.SignatureAlgorithm, mask&2 != 0, "1.2.3.4") || !okBits(cm.SignatureValue, mask&4 != 0) ||
+				!okAlg(cm.TbsSignature, mask&8 != 0, "1.2.840.1") || !okAlg(cm.TbsPublicKeyAlgorithm, mask&16 != 0, "2.5.4.3") || !okBits(cm.TbsPublicKey, mask&32 != 0) {
+				fmt.Printf("VERIF-BOUNDED: violation manipulations %+v (version %d) became %+v\n", m, ver, cm)
+				return
+			}
+		}
+	}
+	fmt.Printf("VERIF-BOUNDED: ok cases=%d\n", n)
+}
+
+// TestVerifBoundedProfile: initProfile keeps the name, the subject attribute list, every extension in order and both
+// flags of every extension, for all four flag combinations and attribute lists with every mix of optional entries.
+func TestVerifBoundedProfile(t *testing.T) {
+	n := 0
+	for flags := 0; flags < 16; flags++ {
+		for attrs := 0; attrs < 8; attrs++ {
+			n++
+			p := Profile{ProfileName: fmt.Sprintf("p%d", flags), Version: 1}
+			for i := 0; i < 3; i++ {
+				if attrs&(1<<i) != 0 || i == 0 {
+					p.SubjectAttributes.Attributes = append(p.SubjectAttributes.Attributes, config.ProfileSubjectAttribute{Attribute: []string{"CN", "C", "O"}[i], Optional: attrs&(1<<i) != 0})
+				}
+			}
+			p.SubjectAttributes.AllowOther = attrs&4 != 0
+			p.Extensions = []AnyExtension{
+				{KeyUsage: &KeyUsage{Raw: "!null"}, Optional: flags&1 != 0, Override: flags&2 != 0},
+				{SubjectAltName: &SubjectAltName{}, Optional: flags&4 != 0, Override: flags&8 != 0},
+			}
+			out, err := initProfile(p)
+			if err != nil || out == nil {
+				fmt.Printf("VERIF-BOUNDED: violation initProfile fails: %v\n", err)
+				return
+			}
+			if out.Name != p.ProfileName || len(out.SubjectAttributes.Attributes) != len(p.SubjectAttributes.Attributes) || out.SubjectAttributes.AllowOther != p.SubjectAttributes.AllowOther || len(out.Extensions) != 2 {
+				fmt.Printf("VERIF-BOUNDED: violation profile %+v became %+v\n", p, out)
+				return
+			}
+			for i, a := range p.SubjectAttributes.Attributes {
+				if out.SubjectAttributes.Attributes[i] != a {
+					fmt.Printf("VERIF-BOUNDED: violation subject attribute %d of %+v became %+v\n", i, p.SubjectAttributes, out.SubjectAttributes)
+					return
+				}
+			}
+			for i, e := range p.Extensions {
+				if out.Extensions[i].Optional != e.Optional || out.Extensions[i].Override != e.Override {
+					fmt.Printf("VERIF-BOUNDED: violation extension %d configured optional=%v override=%v, profile has optional=%v override=%v\n", i, e.Optional, e.Override, out.Extensions[i].Optional, out.Extensions[i].Override)
+					return
+				}
+			}
+			if _, ok := out.Extensions[0].ExtensionConfig.(KeyUsage); !ok {
+				fmt.Printf("VERIF-BOUNDED: violation extension order: %T first\n", out.Extensions[0].ExtensionConfig)
+				return
+			}
+		}
+	}
+	fmt.Printf("VERIF-BOUNDED: ok cases=%d\n", n)
+}
